@@ -58,6 +58,8 @@ fn sgr(params: &str) -> Tok {
 const SGR_BASE: &[&str] = &[
     "0", "", "1", "3", "4", "7", "2", "9", "31", "37", "92", "44", "103", "38;5;9", "38;5;100", "48;5;100",
     "38;2;1;2;3", "48;2;255;0;10", "58;5;9", "58;2;1;2;3", "39", "49", "38:5:100", "4:3",
+    // truecolor values that differ from the ones above in exactly one component (class names / sheet keys)
+    "38;2;1;2;200", "38;2;1;77;3", "38;2;99;2;3", "48;2;255;0;99", "58;2;1;2;77",
 ];
 /// several attributes in one sequence, extended/underline forms only in last position
 const SGR_MULTI_TAIL: &[&str] = &["1;31", "0;7", "7;44", "3;38;5;100"];
